@@ -1,0 +1,11 @@
+//go:build verif
+
+// Contracts for the verification harness in /verif (comment-only; no declarations).
+package v1
+
+// a read-only lookup (map-range loop over the groups): a pure function of the map content
+//@ func RelativeObjectMap.FindGroupKindName(m, gk, name) (obj)
+//@   pure
+//@   trusted read-only lookup over a map of maps; used as a mathematical function of its arguments in contracts
+
+//@ pred noNilRelChildren(m) = forall g api.GroupVersionKind, k string :: has(m, g) && has(m[g], k) ==> m[g][k] != nil
